@@ -78,7 +78,7 @@ func (s *service) pause() {
 	s.mu.Unlock()
 	switch {
 	case k < 45:
-	case k < 80:
+	case k < 94:
 		for i := 0; i <= n; i++ {
 			runtime.Gosched()
 		}
